@@ -253,10 +253,12 @@ def paths(stmts: Sequence[ast.stmt], env0: Optional[Dict[str, ast.AST]] = None, 
                     p.env[t.id] = v.node if isinstance(v, _Lit) else v
                 elif isinstance(t, (ast.Tuple, ast.List)) and isinstance(v, (ast.Tuple, ast.List)) and len(t.elts) == len(v.elts) and all(isinstance(e, ast.Name) for e in t.elts):
                     for e, vv in zip(t.elts, v.elts):
-                        p.env[e.id] = vv
+                        if e.id not in keep:
+                            p.env[e.id] = vv
                 elif isinstance(t, (ast.Tuple, ast.List)) and all(isinstance(e, ast.Name) for e in t.elts):
                     for k, e in enumerate(t.elts):
-                        p.env[e.id] = ast.Subscript(value=v, slice=ast.Constant(value=k), ctx=ast.Load())
+                        if e.id not in keep:
+                            p.env[e.id] = ast.Subscript(value=v, slice=ast.Constant(value=k), ctx=ast.Load())
                 else:
                     p.events.append(("store", st, ast.Assign(targets=[subst(t, p.env)], value=v, lineno=getattr(st, "lineno", 0))))
                 continue
